@@ -51,13 +51,15 @@ pub struct Scenario {
     pub panics: Vec<(usize, bool)>,
     /// systems that rendezvous: (ids, k)
     pub rendezvous: Option<(Vec<usize>, u16)>,
+    /// call dispatch from inside a worker of another ("foreign") pool with that many threads
+    pub foreign_pool: Option<usize>,
     /// async script (mode Async only): D dispatch, R running, W wait, X wait_without_tl, O world, M world_mut, S setup
     pub script: Option<String>,
 }
 
 impl Scenario {
     pub fn plain(ops: Vec<Op>, mode: Mode, dispatches: u8) -> Scenario {
-        Scenario { ops, mode, dispatches, user_pool: None, default_threads: None, panics: vec![], rendezvous: None, script: None }
+        Scenario { ops, mode, dispatches, user_pool: None, default_threads: None, panics: vec![], rendezvous: None, foreign_pool: None, script: None }
     }
 
     pub fn to_json(&self) -> Value {
@@ -71,6 +73,7 @@ impl Scenario {
             "panics": self.panics.iter().map(|(i, f)| json!([i, f])).collect::<Vec<_>>(),
             "rendezvous": self.rendezvous.as_ref().map(|(ids, k)| json!({"ids": ids, "k": k})),
             "script": self.script,
+            "foreign_pool": self.foreign_pool,
         })
     }
 
@@ -94,6 +97,7 @@ impl Scenario {
                 }
             }),
             script: v.get("script").and_then(|x| x.as_str()).map(|x| x.to_string()),
+            foreign_pool: v.get("foreign_pool").and_then(|x| x.as_u64()).map(|x| x as usize),
         })
     }
 }
@@ -238,6 +242,39 @@ pub fn run_scenario(sc: &Scenario, twin: bool) -> ExecOut {
             }
         };
         let world = new_world();
+        let foreign = if twin { None } else { sc.foreign_pool.map(|n| rayon::ThreadPoolBuilder::new().num_threads(n).build().unwrap()) };
+        if let Some(f) = &foreign {
+            // dispatch is called from a worker of another pool: needs the sendable form (no thread-local systems)
+            let mut sd = match d.try_into_sendable() {
+                Ok(sd) => sd,
+                Err(_) => {
+                    out.build_error = Some("foreign-pool scenario with thread-local systems".into());
+                    return out;
+                }
+            };
+            for i in 1..=sc.dispatches {
+                ctx.dispatch_no.store(i as u32, Ordering::Relaxed);
+                ctx.log(Ev::DispatchBegin, 0, 0);
+                let r = catch_unwind(AssertUnwindSafe(|| {
+                    let (sdr, wr) = (&mut sd, &world);
+                    f.install(move || sdr.dispatch(wr));
+                }));
+                ctx.log(Ev::DispatchEnd, 0, 0);
+                out.results.push(r.err().map(|p| payload_str(&*p)));
+                let bs = world_borrow_state(&world);
+                let vals = if bs.iter().all(|b| *b == 0) { world_values(&world) } else { vec![] };
+                out.after.push((vals, bs, ctx.local.lock().unwrap().clone()));
+            }
+            out.values = world_values(&world);
+            out.borrow = world_borrow_state(&world);
+            out.log = ctx.take_log();
+            out.obs = ctx.obs.lock().unwrap().clone();
+            out.local = ctx.local.lock().unwrap().clone();
+            out.runs = ctx.runs.lock().unwrap().clone();
+            out.errors = ctx.errors.lock().unwrap().clone();
+            out.spawn_panics = rayon::verif::spawn_panics();
+            return out;
+        }
         for i in 1..=sc.dispatches {
             ctx.dispatch_no.store(i as u32, Ordering::Relaxed);
             ctx.log(Ev::DispatchBegin, 0, 0);
@@ -247,6 +284,8 @@ pub fn run_scenario(sc: &Scenario, twin: bool) -> ExecOut {
                     if matches!(sc.mode, Mode::Dispatch | Mode::Async) {
                         d.dispatch_thread_local(&world);
                     }
+                } else if foreign.is_some() {
+                    unreachable!("foreign-pool scenarios run on the sendable form");
                 } else {
                     run_dispatch(&mut d, &world, sc.mode);
                 }
@@ -531,6 +570,19 @@ pub fn analyze(m: &Mon, sc: &Scenario, info: &PlanInfo, out: &ExecOut, twin: Opt
                 }
             }
         }
+        if m.c12 && expecting_panic {
+            // a dispatch in which an ordinary system panicked: the other systems have not all finished,
+            // so no top-level thread-local system may start in it
+            let ordinary_panicked = sc.panics.iter().any(|(id, _)| info.nodes[*id].kind != Kind::Tl && log.iter().any(|e| e.dispatch == 1 && is_begin(info, e) && e.sys as usize == *id));
+            if ordinary_panicked && out.results.first().map_or(false, |r| r.is_some()) {
+                for e in log {
+                    let id = e.sys as usize;
+                    if e.dispatch == 1 && e.kind == Ev::FetchBegin && info.nodes.get(id).map_or(false, |n| n.kind == Kind::Tl && n.parent.is_none()) {
+                        vs.push(v("C12", "tl-started-although-a-system-panicked", format!("thread-local system {} started in a dispatch in which an ordinary system panicked (not every other system has finished)", id)));
+                    }
+                }
+            }
+        }
         if m.c12 {
             for e in log {
                 let id = e.sys as usize;
@@ -710,6 +762,11 @@ pub fn analyze_async(sc: &Scenario, info: &PlanInfo, out: &ExecOut) -> Vec<Viol>
         return vs;
     }
     for r in out.results.iter().flatten() {
+        // with an injected background panic the hand-over never happens: the blocking calls unwind with
+        // "Sender dropped", which is the library's way of NOT reporting completion
+        if !(sc.panics.is_empty()) && r.contains("Sender dropped") {
+            continue;
+        }
         vs.push(v("C15", "async-call-panicked", format!("a call of the script panicked: {}", r)));
     }
     let script: Vec<char> = sc.script.as_deref().unwrap_or("").chars().chain(std::iter::once('O')).collect();
